@@ -821,3 +821,105 @@ pub fn gen_live(seed: u64, count: usize) -> Vec<String> {
     }
     out
 }
+
+// ---------------------------------------------------------------------------------
+// ROT: k-cell rotations with arithmetic inside an input-controlled loop.  The optimiser
+// emits the cycle as one simultaneous assignment, which needs k temporaries at once:
+// k >= 12 forces stack temporaries (index >= 11) in the JIT.
+
+pub fn gen_rot(seed: u64, count: usize) -> Vec<String> {
+    let mut r = Rng::new(seed ^ 0x2077);
+    let mut out = Vec::new();
+    let mut tries = 0;
+    while out.len() < count && tries < count * 10 {
+        tries += 1;
+        let k = *r.pick(&[3i64, 5, 8, 11, 12, 13, 14, 16]);
+        let t = k + 1; // rotation temporary
+        let t2 = k + 2; // scratch for products
+        let mut e = Emit { out: String::new(), pos: 0 };
+        e.out.push(',');
+        for c in 1..=k {
+            e.goto(c);
+            e.out.push_str(*r.pick(&[",", ",", "+++", ",+"]));
+        }
+        e.goto(0);
+        e.out.push('[');
+        // c1 -> t, possibly scaled
+        e.goto(1);
+        e.out.push_str("[-");
+        e.add_const(t, *r.pick(&[1i64, 1, 2, 3]));
+        e.goto(1);
+        e.out.push(']');
+        for i in 2..=k {
+            match r.below(10) {
+                0 | 1 => {
+                    // c_{i-1} += m * c_i
+                    let m = *r.pick(&[2i64, 3, -1, 5]);
+                    e.goto(i);
+                    e.out.push_str("[-");
+                    e.add_const(i - 1, m);
+                    e.goto(i);
+                    e.out.push(']');
+                }
+                2 if i < k => {
+                    // c_{i-1} += c_i * c_{i+1}, c_{i+1} preserved through t2
+                    e.goto(i);
+                    e.out.push_str("[-");
+                    e.goto(i + 1);
+                    e.out.push_str("[-");
+                    e.add_const(i - 1, 1);
+                    e.add_const(t2, 1);
+                    e.goto(i + 1);
+                    e.out.push(']');
+                    e.goto(t2);
+                    e.out.push_str("[-");
+                    e.add_const(i + 1, 1);
+                    e.goto(t2);
+                    e.out.push(']');
+                    e.goto(i);
+                    e.out.push(']');
+                }
+                3 if i < k => {
+                    // feeds two cells
+                    e.goto(i);
+                    e.out.push_str("[-");
+                    e.add_const(i - 1, 1);
+                    e.add_const(i + 1, 1);
+                    e.goto(i);
+                    e.out.push(']');
+                }
+                _ => {
+                    e.goto(i);
+                    e.out.push_str("[-");
+                    e.add_const(i - 1, 1);
+                    e.goto(i);
+                    e.out.push(']');
+                }
+            }
+            if r.below(14) == 0 {
+                e.goto(i);
+                e.out.push('.');
+            }
+        }
+        // t -> c_k
+        e.goto(t);
+        e.out.push_str("[-");
+        e.add_const(k, 1);
+        e.goto(t);
+        e.out.push(']');
+        if r.below(4) == 0 {
+            e.goto(1);
+            e.out.push('.');
+        }
+        e.goto(0);
+        e.out.push_str("-]");
+        for c in 1..=k {
+            e.goto(c);
+            e.out.push('.');
+        }
+        if balanced(&e.out) && !out.contains(&e.out) {
+            out.push(e.out);
+        }
+    }
+    out
+}
